@@ -123,7 +123,7 @@ def check(run, driver):
             kw = dict(method=method, information=info, max_lag=int(rng.integers(1, 3)), n_shuffles=8, alpha_forward=0.1, alpha_backward=0.1, k_means=3)
             probes.append((info, method, data, kw))
     # count data under the LASSO selection (cheap, and always has edges whose numbers can be compared)
-    for rep in range(3 if thorough else 2):
+    for rep in range(4 if thorough else 3):
         data = make_data("poisson", rng, 3, 40)
         probes.append(("poisson", "lasso", data, dict(method="lasso", information="poisson", max_lag=2, n_shuffles=4, alpha_forward=0.1, alpha_backward=0.1)))
     # neighbour estimator on integer-valued data (exact ties), all methods
@@ -168,7 +168,7 @@ def check(run, driver):
     # warm-up history at estimator level: many evaluations on OTHER data (memo tables keyed on rounded numbers would now be populated)
     from causationentropy.core.information.conditional_mutual_information import conditional_mutual_information as _cmi
     from causationentropy.core.information.entropy import poisson_entropy as _pe
-    for _ in range(400 if thorough else 150):
+    for _ in range(1200 if thorough else 500):
         Nw = 16
         Wc = rng.poisson(float(rng.uniform(0.5, 5)), size=(Nw, 3)).astype(float)
         _cmi(Wc[:, :1], Wc[:, 1:2], Wc[:, 2:] if rng.random() < 0.5 else None, method="poisson")
